@@ -105,7 +105,8 @@ def run_level(ctx, ss):
                 if n_alive[ti] != n_alive[ti - 1] + created - new_deaths[ti]:
                     w = dict(config=name, seed=seed, ti=ti, n_alive_prev=n_alive[ti - 1], created=created, new_deaths=new_deaths[ti], n_alive=n_alive[ti], late=b['late'])
                     # deaths requested after the resolution phase of the previous step (ti_dead < ti) are executed now but recorded nowhere
-                    if b['late'] > 0 and n_alive[ti] == n_alive[ti - 1] + created - new_deaths[ti] - b['late']:
+                    # the listed finding is the call site Pregnancy.finish_step (neonatal deaths requested after the resolution phase): only configurations with Pregnancy
+                    if 'pregnancy' in name and b['late'] > 0 and n_alive[ti] == n_alive[ti - 1] + created - new_deaths[ti] - b['late']:
                         w['finding_key'] = 'late-death-request-uncounted'
                     ctx.violation(f'{name}: step {ti}: n_alive {n_alive[ti]} != previous {n_alive[ti-1]} + created {created} - recorded deaths {new_deaths[ti]}', w)
                     break
